@@ -225,6 +225,12 @@ def main(argv=None):
         "z3/cvc5 are trusted for `unsat`; `sat` models are validated by re-evaluation",
     ])
     level = "proof" if units else "exploration"
+    try:        # the level claimed for the property as a whole is the manifest's (a property whose deciding part is bounded says exploration)
+        for c_ in json.load(open(os.path.join(HERE, "MANIFEST.json")))["checks"]:
+            if c_["property_id"] == pid:
+                level = c_["level_claimed"]["category"]
+    except Exception:
+        pass
     coverage = dict(
         obligations=n_obl, discharged=n_dis, verification_conditions=len(vcs),
         vcs_discharged=sum(1 for v in vcs if v["result"] == "discharged"),
